@@ -26,6 +26,7 @@ VALUES = {
     "float": ["1.5", "0.0", "3", "-2.25"],
     "bool": ["true", "false", "1", "0", "yes", "no", "on", "off"],
 }
+PY_DEFAULTS = {"str": [1, True, 1.0, 0, False, 0.0], "int": [1, 0, True, 1.0], "float": [1.0, 0.0, 1, True], "bool": [True, False, 1, 0]}
 BAD = {"int": ["abc", "1.5", ""], "float": ["abc", "1,5"], "bool": ["maybe", "2"], "str": []}
 
 
@@ -81,6 +82,9 @@ def gen_level(r, used_long, used_short, used_args, allow_args=True, n_names=None
                 default = r.pick([None, None, ["d1"], ["d1", "d2"]])
             elif r.chance(0.4):
                 default = r.pick(VALUES[opt_type(flags)])
+                if r.chance(0.3):
+                    # defaults need not be strings: equal Python values of different types (1, 1.0, True)
+                    default = r.pick(PY_DEFAULTS[opt_type(flags)])
         opts.append([long_name, short, flags, default])
     args = []
     if allow_args:
